@@ -9,11 +9,13 @@ import (
 	"github.com/consensys/gnark-crypto/ecc"
 	"github.com/consensys/gnark/constraint/solver"
 	"github.com/consensys/gnark/frontend"
+	"github.com/consensys/gnark/std/algebra/emulated/sw_bls12381"
 	"github.com/consensys/gnark/std/hash/mimc"
 	"github.com/consensys/gnark/std/hash/sha2"
 	"github.com/consensys/gnark/std/lookup/logderivlookup"
 	"github.com/consensys/gnark/std/math/cmp"
 	"github.com/consensys/gnark/std/math/emulated"
+	"github.com/consensys/gnark/std/math/emulated/emparams"
 	"github.com/consensys/gnark/std/math/uints"
 	"github.com/consensys/gnark/std/multicommit"
 	gkrposeidon2 "github.com/consensys/gnark/std/permutation/poseidon2/gkr-poseidon2"
@@ -239,6 +241,41 @@ func (c *gkrCircuit) Define(api frontend.API) error {
 	return nil
 }
 
+// ---- variable-modulus emulated arithmetic (the modulus is an Element of the circuit value)
+type varModCircuit struct {
+	A, B, M emulated.Element[emparams.Mod1e512]
+	Out     emulated.Element[emparams.Mod1e512] `gnark:",public"`
+}
+
+func (c *varModCircuit) Define(api frontend.API) error {
+	f, err := emulated.NewField[emparams.Mod1e512](api)
+	if err != nil {
+		return err
+	}
+	x := f.ModMul(&c.A, &c.B, &c.M)
+	x = f.ModAdd(x, &c.A, &c.M)
+	x = f.ModMul(x, x, &c.M)
+	f.ModAssertIsEqual(x, &c.Out, &c.M)
+	return nil
+}
+
+// ---- emulated BLS12-381 G1 gadget (package-level constants of the curve packages)
+type g1Circuit struct {
+	P sw_bls12381.G1Affine
+	k int
+}
+
+func (c *g1Circuit) Define(api frontend.API) error {
+	g, err := sw_bls12381.NewG1(api)
+	if err != nil {
+		return err
+	}
+	for i := 0; i <= c.k; i++ { // k differs between variants: different wire numbering
+		g.AssertIsOnG1(&c.P)
+	}
+	return nil
+}
+
 func catalog(nSpecs int, specSeed func(i int) *circuits.Spec) []entry {
 	var es []entry
 	for i := 0; i < nSpecs; i++ {
@@ -262,6 +299,9 @@ func catalog(nSpecs int, specSeed func(i int) *circuits.Spec) []entry {
 		entry{name: "wire-query/GetWireConstraints(addMissing)", field: ecc.BN254, scs: true, newCirc: func() frontend.Circuit { return &wireQueryCircuit{} }},
 		entry{name: "wire-query/GetWiresConstraintExact(addMissing)", field: ecc.BN254, scs: true, newCirc: func() frontend.Circuit { return &wireQueryCircuit{exact: true} }},
 		entry{name: "sha2+mimc", field: ecc.BN254, r1cs: true, scs: true, heavy: true, newCirc: func() frontend.Circuit { return &hashCircuit{} }},
+		entry{name: "emulated-variable-modulus", field: ecc.BN254, r1cs: true, scs: true, newCirc: func() frontend.Circuit { return &varModCircuit{} }},
+		entry{name: "sw_bls12381-G1/k=0", field: ecc.BN254, scs: true, heavy: true, newCirc: func() frontend.Circuit { return &g1Circuit{k: 0} }},
+		entry{name: "sw_bls12381-G1/k=1", field: ecc.BN254, scs: true, heavy: true, newCirc: func() frontend.Circuit { return &g1Circuit{k: 1} }},
 		entry{name: "gkr-poseidon2", field: ecc.BLS12_377, scs: true, heavy: true, newCirc: func() frontend.Circuit { return &gkrCircuit{} }},
 	)
 	return es
